@@ -358,9 +358,9 @@ def r_cycle(chk, P, tier):
     reps = {}
     for y in range(2000, 2400):
         reps.setdefault(tbl[y % 400], y)
-    years = sorted(reps.values())
+    years = sorted(reps.values()) + [-401, -400, -5, -4, -1, 0, 1]      # + years around 0 and a negative cycle boundary (rem vs rem_euclid, year - 1 below zero)
     if tier == "thorough":
-        years = list(range(2000, 2400)) + list(range(-400, 0, 7))
+        years = list(range(2000, 2400)) + list(range(-400, 0, 7)) + [-401, -5, -4, -1, 0, 1]
     nyears = len(years)
 
     chk.rule("CYCLE.from_ymd", "from_ymd_opt(y, m, d) for every year class x m in 0..=13 x d in 0..=32 is the calendar's date, or None", floor=1)
